@@ -52,7 +52,14 @@ var cliCTNames = []string{"absent", "xml", "textxml", "textOther", "other", "bad
 func cliEBody(r *RNG, class string) string {
 	switch class {
 	case "davError":
-		return randStyle(r).doc(E("DAV:", "error", E(r.Pick([]string{"DAV:", nsCal, nsCard}), r.Pick([]string{"lock-token-submitted", "valid-calendar-data", "no-uid-conflict", "need-privileges"}))))
+		cond := E(r.Pick([]string{"DAV:", nsCal, nsCard}), r.Pick([]string{"lock-token-submitted", "valid-calendar-data", "no-uid-conflict", "need-privileges"}))
+		if r.Chance(40) {
+			// a long condition (many hrefs): error bodies are not bounded by a kilobyte
+			for i := r.Range(20, 120); i > 0; i-- {
+				cond.Add(E("DAV:", "href").T(fmt.Sprintf("/locked/resource-%04d/with/a/long/path", i)))
+			}
+		}
+		return randStyle(r).doc(E("DAV:", "error", cond))
 	case "xmlOther":
 		return randStyle(r).doc(E("DAV:", r.Pick([]string{"multistatus2", "errors", "prop"}), E("DAV:", "x")))
 	case "garbage":
